@@ -173,6 +173,7 @@ def parseQuery : List String → Option Query
     some (.paginateLinks (w.toNat?.getD 0) (unxList ps) (is1 n) (is1 o) (optNat k) (tokArg tok))
   | ["weout", _, ps] => some (.cited (unxList ps) true)
   | ["wein", _, ps] => some (.cited (unxList ps) false)
+  | ["wedeg", _, ps] => some (.weDegrees (unxList ps))
   | ["pagelinksof", x, i, n, o] => some (.pageLinks (unx x) (is1 i) (is1 n) (is1 o))
   | ["pagedeg", x, kind, w] => some (.pageDegree (unx x) (degKind kind) (is1 w))
   | ["network", o, a, slow] => some (.network (is1 o) (is1 a) (is1 slow))
@@ -225,6 +226,10 @@ def step (s : State) (line : String) : State × String :=
   | ["init", _backend, d, rs, cfg] =>
     (match Rule.ofName d, parseRules rs with
      | some d, some rs => let r := State.fresh (cfgOfBits cfg) d rs; (r.1, renderAns (.ofExcept (fun _ => .unit) r.2))
+     | _, _ => (s, "bad-op"))
+  | ["overwrite", d, rs] =>
+    (match Rule.ofName d, parseRules rs with
+     | some d, some rs => let r := State.fresh s.cfg d rs; (r.1, renderAns (.ofExcept (fun _ => .unit) r.2))
      | _, _ => (s, "bad-op"))
   | "?" :: q => (match parseQuery q with
      | some qq => (s, renderAns (s.ask qq))
